@@ -23,6 +23,13 @@ class SegmentTimeline(DashElement):
         for idx, seg in enumerate(timeline):
             t = seg.get('t')
             duration = int(seg.get('d'), 10)
+            if t is not None and start is not None:
+                # the timelines this validator is used with have no
+                # discontinuities, whether or not anything is fetched
+                # with the help of the timeline
+                self.attrs.check_equal(
+                    int(t, 10), start,
+                    msg=f'S@t={t} does not follow the end of the previous S element ({start})')
             start = int(t, 10) if t is not None else start
             repeat = int(seg.get('r', '0')) + 1
             if not self.attrs.check_not_none(
